@@ -424,6 +424,8 @@ def gen_history(rng, maxlen):
         if kind in ("dotl", "dotr") and not hb.dot_ok(ti):
             kind = "rs"
         pool = pools.setdefault((ti, kind), [])
+        if rng.random() < 0.35:              # re-use an argument first used on ANOTHER object of the same rank/size
+            pool = pools.setdefault(("rank", nd_t, _prod(tshape), kind), pool) or pool
         new = None
         if kind == "tr":
             if pool and rng.random() < 0.6:
@@ -445,6 +447,7 @@ def gen_history(rng, maxlen):
                         else:
                             axes[0] = nd_t
                 pool.append(axes)
+                pools.setdefault(("rank", nd_t, _prod(tshape), kind), []).append(axes)
             new = hb.transpose(ti, axes)
         elif kind == "T":
             new = hb.T(ti)
@@ -462,6 +465,7 @@ def gen_history(rng, maxlen):
                     arg[0] = arg[0] + 1
                 order = "F" if rng.random() < 0.03 else "C"
                 pool.append((arg, order))
+                pools.setdefault(("rank", nd_t, _prod(tshape), kind), []).append((arg, order))
             new = hb.reshape(ti, arg, order)
         elif kind == "csr":
             hb.tocsr(ti)
@@ -531,6 +535,25 @@ def scenario_histories():
         hb.tocsc(d)
         hb.tocsr(d)
         out.append(hb.result())
+    for shape in ([2, 3, 4], [2, 1, 3, 2], [3, 2]):       # the same (non-involutive) permutation again on the result
+        nd = len(shape)
+        for p in ([1, 2, 0], [2, 0, 1], [1, 0, 2], [3, 0, 1, 2], [1, 0], [2, 3, 0, 1]):
+            if len(p) != nd:
+                continue
+            hb = HistoryBuilder(shape, 0, 9000 + len(out), 6)
+            y = hb.transpose(0, p)
+            z = hb.transpose(y, p)
+            hb.transpose(z, p)
+            hb.transpose(y, [p.index(i) for i in range(nd)])      # the inverse: equals the root's value
+            hb.T(y)
+            hb.T(z)
+            r1 = hb.reshape(0, [-1])
+            hb.reshape(r1, shape)
+            hb.reshape(r1, [-1])
+            if hb.dot_ok(y):
+                hb.dotr(y, [2, hb.targets[y][2][-2]], False, 5)
+            hb.transpose(0, p)
+            out.append(hb.result())
     for shape in ([2, 3], [2, 2, 3]):        # plain / shallow / deep copies and evictions through a sharer
         hb = HistoryBuilder(shape, 0, 4242 + len(shape), 5)
         nd = len(shape)
